@@ -2,22 +2,24 @@
 CHECKS = {
  'C01': dict(level='translation_validation', engine='E4 verilog interpreter + E2 catalogue + dutgen',
    technique='translation validation by lockstep co-execution: real simulator vs. emitted Verilog run by the /verif Verilog-subset interpreter, outputs compared every cycle',
-   text='Each generated design (unit wrappers of every catalogue block emitted three ways, sequential blocks, parameter-boundary and wide-control classes, random compositions with '
-        'hierarchy and register feedback, hand-written bodies) is validated individually: the py4hw simulator and the interpreter of the emitted text run in lockstep from power-up and all '
+   text='Each generated design (unit wrappers of every catalogue block emitted five ways -- direct, nested, twice, with parent nets named like the block\'s internal wires, built by a caller that reuses its lists --, '
+        'configurations from 1 to 100 bits, sequential blocks, parameter-boundary and wide-control classes, clock drivers not named like their wire, reuse designs, random compositions with '
+        'hierarchy, register feedback and wide registers, hand-written bodies) is validated individually: the py4hw simulator and the interpreter of the emitted text run in lockstep from power-up and all '
         'top-level outputs are compared at power-up, after every input change and after every edge. Held = no disagreement on the programs/comparisons counted in the evidence.',
-   note='Trusted: the E4 reading of IEEE 1364-2005 (DESIGN.md Appendix A, self-tested at setup), zero power-up for uninitialised Verilog state; x sources, multi-clock and inout designs are skipped as indeterminate.',
+   note='Trusted: the E4 reading of IEEE 1364-2005 (DESIGN.md Appendix A, self-tested at setup), zero power-up for uninitialised Verilog state; x sources, multi-clock and inout designs are skipped as indeterminate; unsized literals beyond 32 bits are judged only where the two extreme readings of the standard agree (two interpreters side by side).',
    ref='DESIGN.md section 4 C01'),
  'C07': dict(level='exploration', engine='E2 catalogue + reference models',
    technique='runtime reference-model monitor: real blocks simulated under exhaustive/boundary/random inputs, outputs judged by independent integer references',
    text='Every arithmetic block of the catalogue is executed in the real simulator for every legal width/parameter configuration of the grid; '
         'inputs are exhaustive for small widths and boundary x boundary + random beyond; each output is compared with an independent integer reference. '
-        'Held = no disagreement on the evaluations counted in the evidence; nothing is claimed for widths/configurations outside the grid.',
+        'Every configuration is also built by a caller that reuses the list objects it passed, with one wire shared by several input ports, and with every input driven by a buffer created after the block. '
+        'Held = no disagreement on the evaluations counted in the evidence; nothing is claimed for widths/configurations outside the grid (1..100 bits).',
    note='Trusted: the integer references in vlib/catalog.py (written from the docstrings/property text) and the readings listed under assumptions.',
    ref='DESIGN.md section 4 C07'),
  'C08': dict(level='exploration', engine='E2 catalogue + reference models',
    technique='runtime reference-model monitor: real blocks simulated under exhaustive truth-table enumeration, outputs judged by independent truth-table references',
    text='Every gate/selector/comparator block is executed in the real simulator over all arities/widths/constants of the grid, exhaustively over inputs when the total '
-        'input width is <= 12/14 bits; outputs compared with truth-table references. Held = no disagreement on what was enumerated.',
+        'input width is <= 12/14 bits; outputs compared with truth-table references; same hostile constructions as C07 (reused caller lists, shared input wires, late drivers), result wires wider than the flag. Held = no disagreement on what was enumerated.',
    note='Trusted: the truth-table references in vlib/catalog.py and the documented-domain readings listed under assumptions.',
    ref='DESIGN.md section 4 C08'),
  'C09': dict(level='exploration', engine='E2 sequential catalogue (vlib/seqcat.py) + reference state machines',
@@ -51,7 +53,7 @@ CHECKS = {
    text='Serializer -> line -> clock recovery + deserializer, as wired in the HIL wrapper, driven with all 256 byte values and random sequences, producer gaps none/1/random, oblivious receiver pacing, '
         'divider ratios 4..40 incl. odd and non-integer requests. Delivered sequence must equal accepted sequence within 16 bit periods per byte; a software receiver sampling mid-bit at the realised bit '
         'period must recover the same bytes from the tx trace.',
-   note='Trusted: the software receiver; receiver ready gaps <= half a bit period (UART has no back-pressure); liveness restated as bounded progress.',
+   note='Trusted: the software receiver; receiver pacing within what the unchanged link tolerates (stalls up to 11 bit periods - 2 clocks, take-cycle swept up to the last legal cycle); liveness restated as bounded progress.',
    ref='DESIGN.md section 4 C17'),
  'C20': dict(level='exploration', engine='command stream generator + per-cycle trace oracle',
    technique='offline trace checker over recorded strobe/handshake traces of generated command streams and response runs',
